@@ -383,8 +383,8 @@ Proof.
   destruct o; cbn [step] in Hc.
   - eapply hq_same_ok; [eapply on_new_worker_same; exact Hc | exact H].
   - destruct (find_proc _ w); [|discriminate]. eapply on_remove_worker_ok; eassumption.
-  - eapply handle_submit_array_ok; eassumption.
-  - destruct (bad_graph_rq _ _); [inversion Hc; subst; exact H|]. eapply handle_submit_graph_ok; eassumption.
+  - destruct (bad_submit_lengths _ _); [inversion Hc; subst; exact H|]. eapply handle_submit_array_ok; eassumption.
+  - destruct (bad_graph_rq _ _); [inversion Hc; subst; exact H|]. destruct (dead_dep _ _ _); [inversion Hc; subst; exact H|]. eapply handle_submit_graph_ok; eassumption.
   - eapply handle_open_ok; eassumption.
   - eapply handle_close_ok; eassumption.
   - eapply handle_cancel_ok; eassumption.
